@@ -134,6 +134,7 @@ func vectorPatterns(kind string) []string {
 
 type vectorCase struct {
 	Hist     uint64 // != 0: the elements of the aliased receiver go through an order-changing history first
+	AN       int    // length of the overlapping operand slice when it differs from the receiver's (0: N)
 	T        gen.ElemType
 	Storage  string
 	Op       containerOp
@@ -187,7 +188,7 @@ func (vc vectorCase) witness() map[string]any {
 	if vc.Parent != nil {
 		w["parent"] = jetsStr(vc.Parent, vc.ParentS)
 		w["receiver_slice"] = fmt.Sprintf("[%d:%d]", vc.R0, vc.R0+vc.N)
-		w["operand_slice"] = fmt.Sprintf("[%d:%d]", vc.A0, vc.A0+vc.N)
+		w["operand_slice"] = fmt.Sprintf("[%d:%d]", vc.A0, vc.A0+vc.an())
 	}
 	if vc.R != nil {
 		w["receiver_before"] = jetsStr(vc.R, vc.RS)
@@ -297,6 +298,48 @@ func genVectorCase(r *prng.Rand, T gen.ElemType, storage string, op containerOp,
 	return vc
 }
 
+func (vc vectorCase) an() int {
+	if vc.AN > 0 {
+		return vc.AN
+	}
+	return vc.N
+}
+
+// genNonSquareCase: MdotV / VdotM with a non-square matrix, so that the result
+// (length n) and the vector operand (length m != n) have different lengths;
+// both are slices [r0:r0+n] and [a0:a0+m] of one parent of length L, placed
+// anywhere (overlapping or disjoint).  Pattern names overlap-b:any (MdotV),
+// overlap-a:any (VdotM).
+func genNonSquareCase(r *prng.Rand, T gen.ElemType, storage string, op containerOp, concrete bool, n, m, L, r0, a0 int) vectorCase {
+	pat := "overlap-b:any"
+	if op.kind == "VM" {
+		pat = "overlap-a:any"
+	}
+	vc := vectorCase{T: T, Storage: storage, Op: op, Concrete: concrete, Pat: pat, OtherStorage: storage, N: n, AN: m, R0: r0, A0: a0}
+	nvar := r.Range(1, 2)
+	o := 0
+	if T.IsReal {
+		o = r.Intn(3)
+	}
+	zp := func() string { return r.Pick(gen.ZeroPatterns) }
+	if !concrete && r.Chance(0.3) {
+		vc.OtherStorage = []string{gen.Dense, gen.Sparse}[r.Intn(2)]
+	}
+	vc.Parent, vc.ParentS = jets(T, r, L, nvar, o, zp(), false)
+	eff, effS := vc.Parent[a0:a0+m], vc.ParentS[a0:a0+m]
+	if op.kind == "MV" { // r (n) = M (n x m) . b (m)
+		vc.MR, vc.MC = n, m
+		vc.B, vc.BS = eff, effS
+	} else { // r (n) = a (m) . M (m x n)
+		vc.MR, vc.MC = m, n
+		vc.A, vc.AS = eff, effS
+	}
+	vc.M, vc.MS = jets(T, r, vc.MR*vc.MC, nvar, o, zp(), false)
+	vc.R, vc.RS = vc.Parent[r0:r0+n], vc.ParentS[r0:r0+n]
+	vc.recvOrd, vc.other = maxOrder(vc.R), maxInt(maxOrder(eff), maxOrder(vc.M))
+	return vc
+}
+
 func b2i(b bool) int {
 	if b {
 		return 1
@@ -330,7 +373,7 @@ func (vc vectorCase) eval(mode string) (res snap.Vec, p *fw.Panic, setup bool) {
 		case strings.HasPrefix(pat, "overlap"):
 			P := buildVec(vc.T, vc.Storage, vc.Parent, vc.ParentS)
 			r = P.Slice(vc.R0, vc.R0+vc.N)
-			x := P.Slice(vc.A0, vc.A0+vc.N)
+			x := P.Slice(vc.A0, vc.A0+vc.an())
 			if strings.HasPrefix(pat, "overlap-a") {
 				a, b = x, mk(vc.B, vc.BS, vc.Storage)
 			} else {
@@ -551,6 +594,22 @@ type containerCombo struct {
 	pat      string
 }
 
+// placement classifies how receiver slice [r0,r0+n) and operand slice
+// [a0,a0+m) of one parent lie to each other.
+func placement(n, m, r0, a0 int) string {
+	if r0+n <= a0 || a0+m <= r0 {
+		return "disjoint"
+	}
+	short, s0, long0 := m, a0, r0
+	if n < m {
+		short, s0, long0 = n, r0, a0
+	}
+	if off := s0 - long0; off >= short {
+		return "overlap,shorter-starts-at-offset>=its-length"
+	}
+	return "overlap,other"
+}
+
 func vectorCombos() []containerCombo {
 	var res []containerCombo
 	for _, T := range gen.Types {
@@ -620,6 +679,52 @@ func runVectors(c *fw.Ctx) {
 		vc.Hist = cs.R.Uint64() | 1
 		vc.judge(cs)
 		cs.Cover("history-cases:vector")
+	})
+	// MdotV / VdotM with result and vector operand of DIFFERENT length, both
+	// slices of one parent, the overlap (or gap) anywhere: every placement for
+	// lengths 1..5 in parents of the longer length and one more
+	var nsq []containerCombo
+	for _, k := range combos {
+		if (k.op.kind == "MV" || k.op.kind == "VM") && strings.HasSuffix(k.pat, ":lag") {
+			nsq = append(nsq, k)
+		}
+	}
+	c.CoverMax("max:vector-nonsquare-combos", int64(len(nsq)))
+	c.Cases("vector.nonsquare.directed", len(nsq), func(cs *fw.Case) {
+		k := nsq[cs.Index]
+		first := true
+		for n := 1; n <= 5; n++ {
+			for m := 1; m <= 5; m++ {
+				if n == m {
+					continue
+				}
+				for extra := 0; extra <= 1; extra++ {
+					L := maxInt(n, m) + extra
+					for r0 := 0; r0+n <= L; r0++ {
+						for a0 := 0; a0+m <= L; a0++ {
+							vc := genNonSquareCase(cs.R, k.T, k.storage, k.op, k.concrete, n, m, L, r0, a0)
+							vc.judge(cs)
+							cs.Cover("nonsquare-placement:" + placement(n, m, r0, a0))
+							if first {
+								cs.Sample(vc.witness())
+								first = false
+							}
+						}
+					}
+				}
+			}
+		}
+	})
+	c.Cases("vector.nonsquare.random", c.N(20000, 400000), func(cs *fw.Case) {
+		k := nsq[cs.R.Intn(len(nsq))]
+		n, m := cs.R.Range(1, 6), cs.R.Range(1, 6)
+		if n == m {
+			m = n%6 + 1
+		}
+		L := maxInt(n, m) + cs.R.Range(0, 3)
+		vc := genNonSquareCase(cs.R, k.T, k.storage, k.op, k.concrete, n, m, L, cs.R.Range(0, L-n), cs.R.Range(0, L-m))
+		vc.judge(cs)
+		cs.Cover("nonsquare-placement:" + placement(n, m, vc.R0, vc.A0))
 	})
 	c.Cases("vector.random", c.N(60000, 1500000), func(cs *fw.Case) {
 		k := combos[cs.R.Intn(len(combos))]
